@@ -1,4 +1,6 @@
-import PyrexVerif.Proofs.H5Top
+import PyrexVerif.Proofs.H5InvG
+import PyrexVerif.Proofs.H5Source
+import PyrexVerif.Proofs.H5McProofs
 /-!
 # C11 — HDF5 write/read round trip returns each event's own data for every configuration
 
@@ -13,25 +15,43 @@ model: a row is identified by (call, position); the correspondence run encodes t
 -/
 open H5
 
-/-- every `(start, length)` of the index table addresses rows inside its dataset -/
-theorem C11_index_in_bounds (o : Opts) (hA : AlwaysParticles o) (ops : List Op) :
+/-- every `(start, length)` of the index table addresses rows inside its dataset — for EVERY option
+set (also those that do not record particles) -/
+theorem C11_index_in_bounds (o : Opts) (ops : List Op) :
     ∀ ix ∈ (run o ops).index, ∀ t, (ix t).1 + (ix t).2 ≤ ((run o ops).rows t).length := by
   intro ix hix t
   obtain ⟨i, hi, hget⟩ := List.getElem_of_mem hix
   have h : (run o ops).index[i]? = some ix := by rw [List.getElem?_eq_getElem hi, hget]
   rw [← cell_of_getElem? h t]
-  exact (inv_run hA ops).inb i t
+  exact (invG_run o ops).inb i t
 
-/-- in every column the events occupy disjoint, increasing row ranges -/
-theorem C11_index_monotone (o : Opts) (hA : AlwaysParticles o) (ops : List Op)
+/-- in every column the events occupy disjoint, increasing row ranges — for every option set -/
+theorem C11_index_monotone (o : Opts) (ops : List Op)
     (i j : Nat) (ixi ixj : IxRow) (hij : i < j)
     (hi : (run o ops).index[i]? = some ixi) (hj : (run o ops).index[j]? = some ixj) :
     ∀ t, (ixi t).1 + (ixi t).2 ≤ (ixj t).1 := by
   intro t
   rw [← cell_of_getElem? hi t, ← cell_of_getElem? hj t]
-  apply (inv_run hA ops).mono i j t hij
+  apply (invG_run o ops).mono i j t hij
   have := List.getElem?_eq_some_iff.mp hj
   exact this.1
+
+/-- the writer's counters for every option set: a dataset is never longer than its counter and the two
+agree except after a `_write_trigger` that raised between its counter increment and the resize
+(only possible when triggers are written and not trigger-gated); the index table is never longer
+than the event counter and, when shorter, is still empty (events for which nothing was written);
+without reopen the event counter is the number of accepted adds -/
+theorem C11_counters_any_options (o : Opts) (ops : List Op) :
+    (∀ t, ((run o ops).rows t).length ≤ (run o ops).counter t) ∧
+    (∀ t, (t = .triggers ∧ o.write .triggers = true ∧ o.trigOnly .triggers = false) ∨
+          (run o ops).counter t = ((run o ops).rows t).length) ∧
+    numEvents (run o ops) ≤ (run o ops).nEvents ∧
+    (numEvents (run o ops) = (run o ops).nEvents ∨ numEvents (run o ops) = 0) ∧
+    ((∀ op ∈ ops, isReopen op = false) → (run o ops).nEvents = (accepted ops).length) := by
+  have h := invG_run o ops
+  refine ⟨h.lenc, h.lenc_eq, h.ixle, h.ixz, fun hno => ?_⟩
+  have := nEvents_foldl o ops hno File.empty
+  simpa [run, accepted, File.empty] using this
 
 /-- reading the file back yields as many events as were accepted -/
 theorem C11_accepted_count (o : Opts) (hA : AlwaysParticles o) (ops : List Op) :
@@ -98,6 +118,69 @@ theorem C11_keys_stable (o : Opts) (ops : List Op) (op : Op) :
     ∃ ext, (run o (ops ++ [op])).cols = (run o ops).cols ++ ext := by
   rw [run_snoc]; exact applyOp_cols o _ op
 
+/-! ### The model's step order is the source's step order (regenerated from `pyrex/io.py` on every run) -/
+
+/-- `_add_event_data` in the source is: preset first, then the gated writers in the order and under
+the `_write_data` / `_trig_only` keys the model uses (`Tbl.all`, `records`); the component-trigger
+gate is `antenna_triggers` under its own key.  Reordering the writes, changing a gating key or
+dropping the preset in `/repo` breaks this theorem. -/
+theorem C11_steps_match_source :
+    H5Gen.addEventData = modelAddEventData ∧
+    H5Gen.includeAntennas = (Opt.antennaTriggers.key, Opt.antennaTriggers.key) ∧
+    H5Gen.presetKeys = Tbl.presetOrder.map Tbl.key := by decide
+
+/-- every `_write_*` method increments its counter, resizes and writes its index cell in the order of
+the model's micro-operations (`writeTbl`), the particle writer bumps `total_thrown` last, and the
+only writer that can raise between increment and resize is `_write_trigger` (`stageOf`) -/
+theorem C11_writer_ops_match_source : H5Gen.writerOps = modelWriterOps := by decide
+
+/-- `add` checks its arguments, runs `_add_event_data` inside `try`, on an exception shrinks
+`/event_indices` back to `counters['indices']` rows and re-raises (`finishRej`, the F12 repair),
+and increments `counters['indices']` only after success (`finishOk`) -/
+theorem C11_add_shape_matches_source : H5Gen.addShape = modelAddShape := by decide
+
+/-- what the generated gating keys mean in the model: `records` is the gate of the table's own option,
+component triggers are recorded iff triggers are and (antenna triggers are gated in or the trigger
+dict has extra keys) -/
+theorem C11_records_is_gate (o : Opts) (e : Ev) :
+    (∀ t x, t.gateOpt = some x → records o e t = gate o e x) ∧
+    records o e .mcTriggers = (gate o e .triggers && (gate o e .antennaTriggers || e.extraTrig)) := by
+  refine ⟨fun t x h => ?_, rfl⟩
+  cases t <;> simp [Tbl.gateOpt] at h <;> subst h <;> rfl
+
+/-! ### Row content of the component-trigger table (model `PyrexVerif/D/H5Mc.lean`) -/
+
+/-- component flags read back under the names they were recorded under.  For every history of
+`_write_trigger` calls (each with `n = max_waves` rows and named flag columns: distinct names, at
+most `n` values per column), the event written by the call at any position reads, in its row `j`
+and under any column name, exactly the value handed in for that name and waveform — `False` for
+names the event did not carry and for waveforms an antenna did not have — whatever columns existed
+before in whatever order (e.g. a named key created before the `antenna_*` columns: F16) and whatever
+is written afterwards. -/
+theorem C11_component_flags_round_trip (pre post : List (Nat × List (String × List Bool))) (n : Nat)
+    (cols : List (String × List Bool))
+    (hv : ∀ w ∈ pre ++ (n, cols) :: post, H5Mc.ValidWrite w.1 w.2) (j : Nat) (hj : j < n) (name : String) :
+    H5Mc.flag (H5Mc.runMc (pre ++ (n, cols) :: post)) ((H5Mc.runMc pre).counter + j) name =
+      H5Mc.expectedFlag cols j name :=
+  H5Mc.mc_round_trip pre post n cols hv j hj name
+
+/-- the code before the repair ed0aae8 (antenna number used as column number) breaks this: first an
+untriggered event with a dict trigger (column `extra` is created first, antenna triggers are gated),
+then a triggered event in which antenna 0 triggers — its flag is lost, the repaired code keeps it -/
+theorem C11_component_flags_old_code_witness :
+    let m0 := H5Mc.writeEvent H5Mc.Mc.empty 1 [("extra", [false])]
+    let cols := [("antenna_0", [true]), ("antenna_1", [false]), ("extra", [false])]
+    H5Mc.flag (H5Mc.writeEventOld m0 1 2 cols) 1 "antenna_0" = false ∧
+    H5Mc.flag (H5Mc.writeEvent m0 1 cols) 1 "antenna_0" = true ∧
+    (H5Mc.writeEvent m0 1 cols).keys = ["extra", "antenna_0", "antenna_1"] := by decide
+
+/-- non-vacuity: a valid three-event history with the displaced column layout -/
+example : ∀ w ∈ [(1, [("extra", [false])]), (2, [("antenna_0", [true, false]), ("antenna_1", [false]), ("extra", [true, true])]),
+                 (1, [("perwave", [true])])], H5Mc.ValidWrite w.1 w.2 := by
+  intro w hw
+  simp only [List.mem_cons, List.mem_nil_iff, or_false] at hw
+  rcases hw with rfl | rfl | rfl <;> exact ⟨by decide, by decide⟩
+
 /-! ### Non-vacuity and witnesses -/
 
 /-- default-like options: particles, triggers, rays; `require_trigger=True` -/
@@ -123,3 +206,10 @@ theorem C11_all_gated_untriggered_witness :
     let o : Opts := { write := fun _ => true, trigOnly := trigOnlyOf (.list (fun _ => true)) }
     let f := run o [.ok ⟨1, false, 1, 1, false, 1⟩, .ok ⟨2, false, 0, 0, false, 1⟩]
     numEvents f = 0 ∧ (mkIter f 1 none none none).toOption = none := by decide
+
+/-- an option set that gates everything: the first (untriggered) add writes nothing, the index table
+stays empty while the event counter advances; the next (triggered) add materialises both rows -/
+example :
+    let o : Opts := { write := fun _ => true, trigOnly := trigOnlyOf (.list (fun _ => true)) }
+    numEvents (run o [.ok ⟨1, false, 1, 1, false, 1⟩]) = 0 ∧ (run o [.ok ⟨1, false, 1, 1, false, 1⟩]).nEvents = 1 ∧
+    numEvents (run o [.ok ⟨1, false, 1, 1, false, 1⟩, .ok ⟨2, true, 1, 1, false, 1⟩]) = 2 := by decide
